@@ -308,6 +308,14 @@ class Walker:
                     if target[0] == 'name' and target[1] in self.facts.funcs:
                         return ('call', target[1], args, kwargs)
                     return ('callv', target, args, kwargs)
+                if node.func.id == 'all' and self.__dict__.get('_capture_all') and len(node.args) == 1 and not kwargs \
+                        and isinstance(node.args[0], (ast.GeneratorExp, ast.ListComp)) and len(node.args[0].generators) == 1:
+                    # all(p(<args>) for p in PREDS) while a first-match search is being read: the predicate list and the arguments
+                    g_ = node.args[0].generators[0]
+                    elt = node.args[0].elt
+                    if (not g_.ifs and isinstance(g_.target, ast.Name) and isinstance(elt, ast.Call) and isinstance(elt.func, ast.Name)
+                            and elt.func.id == g_.target.id and not elt.keywords):
+                        return ('allpreds', self.sym(g_.iter, st), tuple(self.sym(a, st) for a in elt.args))
                 if node.func.id in ('any', 'all') and len(node.args) == 1 and not kwargs and isinstance(node.args[0], (ast.GeneratorExp, ast.ListComp)):
                     r = self.expand_quantifier(node.func.id, node.args[0], st)
                     if r is not None:
@@ -515,7 +523,12 @@ class Walker:
         if isinstance(node, (ast.ListComp, ast.GeneratorExp, ast.SetComp)) and len(node.generators) == 1:
             g = node.generators[0]
             lit = self.sym(g.iter, st)
-            if lit[0] in ('list', 'tuple') and len(lit[1]) <= 32 and not any(e[0] == 'star' for e in lit[1]) and not isinstance(node, ast.SetComp):
+            if lit[0] == 'mcall' and lit[2] in ('items', 'keys', 'values') and not lit[3] and lit[1][0] == 'dict' and 0 < len(lit[1][1]) <= 64 \
+                    and all(isinstance(pr, tuple) and len(pr) == 2 and is_const(pr[0]) for pr in lit[1][1]):
+                # the views of a dict written out in place, in insertion order
+                pick = {'items': lambda k, v: ('tuple', (k, v)), 'keys': lambda k, v: k, 'values': lambda k, v: v}[lit[2]]
+                lit = ('list', tuple(pick(k, v) for k, v in lit[1][1]))
+            if lit[0] in ('list', 'tuple') and len(lit[1]) <= 64 and not any(e[0] == 'star' for e in lit[1]) and not isinstance(node, ast.SetComp):
                 # a comprehension over a literal sequence is the sequence it spells out (elements in order)
                 elems = []
                 ok = True
@@ -1570,6 +1583,13 @@ class Walker:
         variables it assigns havoc'd; events inside are tagged."""
         it = self.sym(node.iter, st)
         keys = self.search_keys(node, it, st)
+        if keys is None:
+            objs = self.search_objects(node, it, st)
+            if objs is not None:
+                # the same first-match search over a list of rule objects: presented as the table it spells out
+                var, table, text = objs
+                it = ('mcall', table, 'items', ())
+                keys = (var, [k[1] for k, _ in table[1]], text)
         if keys is not None:
             var, key_values, pred_calls = keys
             out = []
@@ -1792,6 +1812,48 @@ class Walker:
         if node.orelse and node.orelse[0].targets[0].id != asg.targets[0].id:
             return None
         return asg.targets[0].id, keys, unparse(iff.test)
+
+    def search_objects(self, node, it, st):
+        """`for r in RULES: if <r's predicates all hold for the arguments>: X = <r's key>; break` with RULES a literal list of
+        objects of a local class: (X, ('dict', ((key, ('list', predicates)), ..)), text of the test), else None."""
+        if not (it[0] in ('list', 'tuple') and it[1] and all(e[0] == 'obj' for e in it[1]) and len(it[1]) <= 64 and isinstance(node.target, ast.Name)):
+            return None
+        if not (len(node.body) == 1 and isinstance(node.body[0], ast.If) and not node.body[0].orelse):
+            return None
+        if node.orelse and not (len(node.orelse) == 1 and isinstance(node.orelse[0], ast.Assign) and len(node.orelse[0].targets) == 1
+                                and isinstance(node.orelse[0].targets[0], ast.Name)):
+            return None
+        iff = node.body[0]
+        if not (len(iff.body) == 2 and isinstance(iff.body[0], ast.Assign) and isinstance(iff.body[1], ast.Break)
+                and len(iff.body[0].targets) == 1 and isinstance(iff.body[0].targets[0], ast.Name)):
+            return None
+        var = iff.body[0].targets[0].id
+        if node.orelse and node.orelse[0].targets[0].id != var:
+            return None
+        pairs = []
+        shape = None
+        self.__dict__['_capture_all'] = self.__dict__.get('_capture_all', 0) + 1
+        try:
+            for e in it[1]:
+                s2 = st.clone()
+                s2.env[node.target.id] = e
+                try:
+                    tv = self.sym(iff.test, s2)
+                    key = self.sym(iff.body[0].value, s2)
+                except AnalysisError:
+                    return None
+                if not (tv[0] == 'allpreds' and tv[1][0] in ('list', 'tuple') and is_const(key) and isinstance(key[1], str)):
+                    return None
+                if shape is None:
+                    shape = tv[2]
+                elif shape != tv[2]:
+                    return None
+                pairs.append((key, ('list', tv[1][1])))
+        finally:
+            self.__dict__['_capture_all'] -= 1
+        if len({k for k, _ in pairs}) != len(pairs):
+            return None
+        return var, ('dict', tuple(pairs)), unparse(iff.test)
 
     def inner_while(self, node, st, done):
         names = self.assigned_names([node])
